@@ -10,9 +10,10 @@
 EXTENDS Integers
 CONSTANTS MaxP, MaxCap, MaxRest
 VARIABLES a, chosen
-W == INSTANCE Writer WITH MaxChunks <- 0, MaxSize <- 0, LatchError <- TRUE, CountAccepted <- TRUE,
+W == INSTANCE Writer WITH MaxChunks <- 0, UnitSizes <- {0}, UnitKinds <- {"fmt"}, IfaceSets <- {{}}, Route <- "fmt", MaxWrite <- 0,
+       PieceCount <- "piece", LatchBy <- "test", CachedViews <- FALSE, LatchError <- TRUE, CountAccepted <- TRUE,
        KeepFirstError <- FALSE, Modes <- {}, Pieces <- {}, GivenFile <- "", MaxCalls <- 1, LaterModes <- {}, FreshPerCall <- TRUE,
-       stage <- "cfg", w <- 0, chunks <- <<>>, fw <- 0, obs <- 0, delivered <- <<>>, sess <- 0
+       stage <- "cfg", w <- 0, chunks <- <<>>, kinds <- <<>>, fw <- 0, obs <- 0, delivered <- <<>>, sess <- 0
 Init == chosen = FALSE /\ a = <<>>
 Next == /\ ~chosen /\ chosen' = TRUE
         /\ a' \in {"never", "whole", "prefix"} \X BOOLEAN \X (1..MaxP) \X (0..MaxCap) \X BOOLEAN \X (0..MaxRest)
